@@ -1428,6 +1428,31 @@ impl World {
             base["retry_raw"] = json!(hex(&d.data));
         }
         let Some(r) = r else { return };
+        // the live connection of this node (if any) whose current remote ID's stateless reset token
+        // ends the datagram: a datagram that reaches no connection may still have been meant for it
+        let tok_owner: i64 = {
+            let mut found = -1i64;
+            // (client endpoints only: a server never learns a token for the ID its client chose for the
+            // handshake, so what a client endpoint sends as a reset for it cannot be recognised)
+            if d.data.len() >= 21 && n != 0 {
+                let tail = &d.data[d.data.len() - 16..];
+                for (_, slot) in self.nodes[n].conns.iter() {
+                    let peer = slot.peer;
+                    if slot.last_dcid.is_empty() || !self.issued[peer].contains(&slot.last_dcid) {
+                        continue;
+                    }
+                    let key = toycrypto::ToyHmacKey(0x1234 + peer as u64);
+                    let mut sig = [0u8; 32];
+                    quinn_proto::crypto::HmacKey::sign(&key, &slot.last_dcid, &mut sig);
+                    if sig[..16] == *tail {
+                        found = slot.uid as i64;
+                    }
+                }
+            }
+            found
+        };
+        let mut base = base;
+        base["tokuid"] = json!(tok_owner);
         match r {
             None => {
                 let mut v = base;
